@@ -302,4 +302,75 @@ theorem merge_get_deep (a b : VMap) (hb : b.Sorted = true) (k : List Nat) :
     rename_i c2 o
     cases o <;> simp
 
+/-! ### what the Spec predicates mean (soundness of the decidable forms) -/
+
+/-- `specTrim s r`: `s = pre ++ r ++ post` with `pre`, `post` whitespace only, and `r` neither
+    starts nor ends with whitespace. -/
+theorem specTrim_sound (s r : List Nat) (h : specTrim s r = true) :
+    ∃ pre post, s = pre ++ r ++ post ∧ (∀ c ∈ pre, isWhitespace c = true) ∧
+      (∀ c ∈ post, isWhitespace c = true) ∧
+      (∀ c, r.head? = some c → isWhitespace c = false) ∧
+      (∀ c, r.getLast? = some c → isWhitespace c = false) := by
+  simp only [specTrim, drop_takeWhile_length, Bool.and_eq_true] at h
+  obtain ⟨⟨⟨hp, hpost⟩, hh⟩, hl⟩ := h
+  obtain ⟨post, hpost'⟩ := List.isPrefixOf_iff_prefix.mp hp
+  refine ⟨s.takeWhile isWhitespace, post, ?_, ?_, ?_, ?_, ?_⟩
+  · rw [List.append_assoc, hpost', List.takeWhile_append_dropWhile]
+  · intro c hc
+    have := all_takeWhile isWhitespace s
+    rw [List.all_eq_true] at this
+    exact this c hc
+  · rw [← hpost', List.drop_left, List.all_eq_true] at hpost
+    exact hpost
+  · intro c hc; simp [hc] at hh; exact hh
+  · intro c hc; simp [hc] at hl; exact hl
+
+/-- `subAt v sub i`: `sub` occurs in `v` at offset `i`. -/
+theorem subAt_iff (v sub : List Nat) (i : Nat) :
+    subAt v sub i = true ↔ ∃ pre post, v = pre ++ sub ++ post ∧ pre.length = i := by
+  simp only [subAt, Bool.and_eq_true, decide_eq_true_eq, beq_iff_eq]
+  constructor
+  · rintro ⟨hl, he⟩
+    refine ⟨v.take i, (v.drop i).drop sub.length, ?_, by simp; omega⟩
+    conv => lhs; rw [← List.take_append_drop i v, ← List.take_append_drop sub.length (v.drop i), he]
+    simp
+  · rintro ⟨pre, post, rfl, rfl⟩
+    simp
+
+theorem uniqueGo_sublist : (xs seen : List Value) → (uniqueGo seen xs).Sublist xs
+  | [], _ => by simp [uniqueGo]
+  | x :: xs, seen => by
+    simp only [uniqueGo]
+    split
+    · exact (uniqueGo_sublist xs seen).cons x
+    · exact (uniqueGo_sublist xs (x :: seen)).cons_cons x
+
+/-- the output of `unique` is a subsequence of the input (order kept, nothing invented) … -/
+theorem unique_sublist (xs : List Value) : (uniqueL xs).Sublist xs := uniqueGo_sublist xs []
+
+theorem uniqueGo_covers : (xs seen : List Value) → ∀ x ∈ xs,
+    seen.any (veq x) = true ∨ ∃ y ∈ uniqueGo seen xs, veq y x = true
+  | [], _ => by simp
+  | a :: xs, seen => by
+    intro x hx
+    simp only [uniqueGo]
+    rcases List.mem_cons.mp hx with rfl | hx
+    · split
+      · rename_i h; exact Or.inl h
+      · exact Or.inr ⟨x, by simp, veq_refl x⟩
+    · split
+      · exact uniqueGo_covers xs seen x hx
+      · rcases uniqueGo_covers xs (a :: seen) x hx with h | ⟨y, hy, hv⟩
+        · simp only [List.any_cons, Bool.or_eq_true] at h
+          rcases h with h | h
+          · exact Or.inr ⟨a, by simp, by rw [veq_symm]; exact h⟩
+          · exact Or.inl h
+        · exact Or.inr ⟨y, List.mem_cons_of_mem _ hy, hv⟩
+
+/-- … and every input element has an equal element in the output. -/
+theorem unique_covers (xs : List Value) (x : Value) (hx : x ∈ xs) : ∃ y ∈ uniqueL xs, veq y x = true := by
+  rcases uniqueGo_covers xs [] x hx with h | h
+  · simp at h
+  · exact h
+
 end C28
